@@ -221,3 +221,28 @@ def layout_text(layout, atoms):
         del lines[last]
         text = "\n".join(lines) + "\n"
     return text
+
+
+# ---------------------------------------------------------------------------
+# mixed structures: every residue type several times in one chain, so that
+# anything shared between residues of one type (topology references, caches)
+# is exercised with residues in different states / positions
+# ---------------------------------------------------------------------------
+MIXED = {
+    "all20x2": list(T.AMINO) + list(reversed(T.AMINO)),
+    "states": ["ASP", "ASH", "ASP", "GLU", "GLH", "GLU", "HIS", "HIP", "HID",
+               "HIE", "HIS", "CYS", "CYM", "CYS", "LYS", "LYN", "LYS", "TYR",
+               "TYM", "TYR", "ARG", "AR0", "ARG"],
+    "ends": ["LYS", "ALA", "LYS", "ASP", "GLY", "ASP", "CYS", "SER", "CYS"],
+}
+
+
+def build_mixed(name, *, hydrogens=False):
+    seq = MIXED[name]
+    atoms = build.build_peptide(seq, hydrogens=hydrogens)
+    n = len(seq)
+    info = [{"kind": "aa", "input": x,
+             "position": "n" if i == 0 else "c" if i == n - 1 else "mid",
+             "chain": "A", "res_seq": 1 + i, "icode": ""}
+            for i, x in enumerate(seq)]
+    return atoms, info
